@@ -273,6 +273,14 @@ theorem reuse_iff_configured (c : PCfg) (t : Tok) :
   cases c with
   | mk k d s => cases k <;> cases d <;> simp
 
+/-- **tokenid_record_independent.** The id a token is recorded under depends on the provisioner's type, its
+    `disableTrustOnFirstUse` switch and the token — not on `disableCustomSANs` and not on the record of the provisioner in the admin
+    database: a provisioner that is migrated, or removed and created again with the same configuration, keeps every used token used. -/
+theorem tokenid_record_independent (c1 c2 : PCfg) (t : Tok) (psha : Str) (hk : c1.kind = c2.kind)
+    (hd : c1.disableTrustOnFirstUse = c2.disableTrustOnFirstUse) :
+    useKey (getTokenID (ptypeOf c1) t) psha = useKey (getTokenID (ptypeOf c2) t) psha := by
+  unfold ptypeOf; rw [hk, hd]
+
 /-- **exceptions_exact.** In every history, a request that got past step 2 *without* its own
     CAS storing a record is one of: the skip-reuse context (identity certificate issued
     alongside an SSH certificate), a provisioner whose `GetTokenID` answers
